@@ -31,7 +31,7 @@ TOL = Fraction(8, 2 ** 53)
 
 
 def configs(tier):
-    return [{'integrator': k} for k in ORDER]
+    return [{'integrator': k} for k in ORDER] + [{'integrator': k, 'dt': 'local'} for k in ORDER]
 
 
 def _run(B, name, y0, dt, t0, fn=None, n=2):
@@ -45,9 +45,16 @@ def harness(cfg, B):
     name = cfg['integrator']
     n = 2
     y0 = B.vararray('y', n)
-    dt = B.pos('dt')
+    local = cfg.get('dt') == 'local'
+    if local:
+        # local time stepping: a per-cell array of steps; every cell advances with its own value, the field time with the minimum
+        dtv = B.vararray('dtl', n, positive=True)
+        dt = B.np.minimum(dtv[0], dtv[1])
+    else:
+        dtv = None
+        dt = B.pos('dt')
     t0 = B.var('t0')
-    solver, disc, f = _run(B, name, y0, dt, t0)
+    solver, disc, f = _run(B, name, y0, dtv if local else dt, t0)
     s = len(disc.calls)
     B.case.info['stages'] = s
     zero = B.array([B.const(0)] * n)
@@ -82,15 +89,17 @@ def harness(cfg, B):
         for m in range(n):
             ref = y0[m]
             for j in range(s):
-                ref = ref + dt * (A[i][j] * K[j][0][m])
+                ref = ref + (dtv[m] if local else dt) * (A[i][j] * K[j][0][m])
             B.ob('stage-arg[%d][%d]' % (i, m), 'eq', Yi[0][m], ref)
         for j in range(i, s):
             B.ob('explicit:A[%d][%d]=0' % (i, j), 'eq', A[i][j], B.const(0))
     for m in range(n):
         ref = y0[m]
         for j in range(s):
-            ref = ref + dt * (b[j] * K[j][0][m])
+            ref = ref + (dtv[m] if local else dt) * (b[j] * K[j][0][m])
         B.ob('result[%d]' % m, 'eq', f.data[0][m], ref)
+    if local:
+        return
     B.ob('time-advance', 'le', abs(f.time - (t0 + dt)), B.const(TOL) * dt, tol=1e-9)
 
     # ---- order conditions on the constants
